@@ -113,12 +113,17 @@ def run_kani(harnesses, jobs=16, timeout_s=1500, playback=False):
             cmd += ["--harness", full_name(h)]
         cmd += GROUP_FLAGS[g]
         t0 = now()
+        import signal
+        proc = subprocess.Popen(cmd, cwd=dst, env=env_offline(), stdout=subprocess.PIPE, stderr=subprocess.STDOUT, text=True, start_new_session=True)
         try:
-            r = subprocess.run(cmd, cwd=dst, env=env_offline(), stdout=subprocess.PIPE, stderr=subprocess.STDOUT, text=True, timeout=timeout_s)
-            out = r.stdout
-        except subprocess.TimeoutExpired as e:
-            out = (e.stdout or b"").decode() if isinstance(e.stdout, bytes) else (e.stdout or "")
-            out += "\nTIMEOUT\n"
+            out, _ = proc.communicate(timeout=timeout_s)
+        except subprocess.TimeoutExpired:
+            try:
+                os.killpg(proc.pid, signal.SIGKILL)
+            except Exception:
+                pass
+            out, _ = proc.communicate()
+            out = (out or "") + "\nTIMEOUT after %ds\n" % timeout_s
         wall = now() - t0
         cmds.append({"cmd": " ".join(cmd), "wall_s": round(wall, 1), "group": g})
         parsed = parse_terse(out)
